@@ -46,6 +46,15 @@ for d in seeded/*/; do
   rc=$(echo "$R" | sed -n 's/.*exit=\([0-9]*\).*/\1/p'); cls=$(echo "$R" | sed -n 's/.*  class \([^ ]*\) .*/\1/p' | head -1)
   echo "| seeded/$id | independent sub-agent | $c | $rc | $cls |" >> $OUT
 done
+# behaviour-preserving changes made by sub-agents (equivalent/<id>/): the property's own check
+# must stay silent (the full matrix against every check of the touched module is in each
+# meta.json, written by tools/equiv_eval.sh)
+for d in equivalent/*/; do
+  id=$(basename $d); c=$(echo $id | cut -c1-3)
+  R=$(tools/mutant.sh /verif/$d/patch.diff $c)
+  rc=$(echo "$R" | sed -n 's/.*exit=\([0-9]*\).*/\1/p')
+  echo "| equivalent/$id | independent sub-agent, behaviour-preserving | $c | $rc (expected 0) | $([ "$rc" = 0 ] && echo silent || echo FALSE-ALARM) |" >> $OUT
+done
 echo >> $OUT
 echo "False alarms on behaviour-preserving refactors: $(grep -c 'FALSE-ALARM' $OUT). Missed: $(grep -c '| 0 |' $OUT); harness errors: $(grep -c '| 2 |' $OUT); patch did not apply: $(grep -c '|  |' $OUT); detected: $(grep -c '| 1 |' $OUT)." >> $OUT
 tail -1 $OUT
